@@ -80,6 +80,29 @@ def run(ck, w):
     for e in die:
         edges |= rules.local_bool_edges(rb, rules.ok_payload_locals(rb, e), True)
     edges |= rules.local_bool_edges(rb, rules.field_read_locals(rb, "overwrite"), True)
+    inline_empty = {}
+    if not die:
+        # the emptiness test written in place: `read_dir(destination)?.next().is_some()` (or is_none()), possibly joined with
+        # `!overwrite` in one bool local
+        for e in rb.events:
+            if e.bb in rb.live and e.args and e.name in ("std::option::Option::<T>::is_some", "std::option::Option::<T>::is_none"):
+                oo = flow.origins_x(lib, rb, e.args[0], through_calls=[r"Try>?::branch$", r"Iterator>?::next$"])
+                if "std::fs::read_dir" in flow.origin_calls(oo):
+                    inline_empty[e] = e.name.endswith("is_none")        # polarity that means "empty"
+        for e, pol in inline_empty.items():
+            edges |= rules.bool_switch_edges(rb, e, pol)
+        ow = rules.local_bool_edges(rb, rules.field_read_locals(rb, "overwrite"), True)
+        for bb_ in sorted(rb.live):
+            t_ = rb.blocks[bb_]["term"]
+            if t_["tk"] != "switch" or t_["discr"].get("k") == "const" or t_["discr"]["pl"]["p"]:
+                continue
+            l_ = t_["discr"]["pl"]["l"]
+            if rb.locals[l_] != "bool" or not inline_empty:
+                continue
+            for val_ in (True, False):
+                if rules.local_implies_any(rb, l_, inline_empty, ow, val_) and any(d_[1] == "call" and d_[2] in inline_empty for d_ in rules._bool_defs(rb, l_)):
+                    edges |= rules.local_bool_edges(rb, {l_}, val_)
+        die = list(inline_empty)
     fx = []
     for e in rb.events:
         if e.bb not in rb.live:
@@ -114,7 +137,15 @@ def run(ck, w):
     o = ck.ob("C16.2d", "directory_is_empty says 'empty' only when the listing yields no entry at all: it lists the directory itself and never "
                         "inspects, stats or filters the entries (an entry of any kind, a dangling link included, makes it non-empty)")
     fam = lib.family("io::directory_is_empty")
-    if not fam:
+    if not fam and inline_empty:
+        # merged into restore(): the listing is `read_dir(destination)`, asked only whether it yields an entry
+        rdv = [e for e in rb.events if e.bb in rb.live and e.name == "std::fs::read_dir"]
+        src_ = flow.origins_x(lib, rb, rdv[0].args[0]) if rdv else set()
+        if rdv and any(x[0] in ("param", "upvar") and x[1] == "destination" for x in src_):
+            ck.ok(o, "emptiness test written in place in restore(): read_dir(destination)?.next().is_some()", sites=[rdv[0].site()])
+        else:
+            ck.fail(o, rb.name, "listing is not of the destination", "read_dir argument from %s" % flow.origin_summary(src_))
+    elif not fam:
         ck.fail(o, "io::directory_is_empty", "anchor-missing", "directory_is_empty not found")
     else:
         allowed = re.compile(r"^std::fs::read_dir$|Try>?::branch$|::from_residual$|Iterator>?::next$|^std::iter::Iterator::(next|count)$|"
